@@ -19,8 +19,10 @@ namespace Hawk.Rex
 
 /-- named character classes `[:alpha:]` … (ASCII meaning, as `hawk_is_uch_*` give for ASCII subjects) -/
 inductive CClass where
-  | alpha | digit | upper | lower | alnum
+  | alpha | digit | upper | lower | alnum | space | blank | punct | xdigit | cntrl | print | graph
 deriving Repr, DecidableEq, Inhabited
+
+def between (lo hi : Nat) (d : Char) : Bool := decide (lo ≤ d.toNat) && decide (d.toNat ≤ hi)
 
 def CClass.has : CClass → Char → Bool
   | .alpha, d => d.isAlpha
@@ -28,6 +30,21 @@ def CClass.has : CClass → Char → Bool
   | .upper, d => d.isUpper
   | .lower, d => d.isLower
   | .alnum, d => d.isAlphanum
+  | .space, d => between 9 13 d || d == ' '
+  | .blank, d => d == ' ' || d == '\t'
+  | .punct, d => between 33 47 d || between 58 64 d || between 91 96 d || between 123 126 d
+  | .xdigit, d => d.isDigit || between 65 70 d || between 97 102 d
+  | .cntrl, d => between 0 31 d || d.toNat == 127
+  | .print, d => between 32 126 d
+  | .graph, d => between 33 126 d
+
+/-- TRE's `IS_WORD_CHAR`: `_` or alphanumeric -/
+def isWord (d : Char) : Bool := d == '_' || d.isAlphanum
+
+/-- word assertions (TRE/GNU extensions, outside POSIX): `\<` `\>` `\b` `\B` -/
+inductive WordB where
+  | bow | eow | wb | nwb
+deriving Repr, DecidableEq, Inhabited
 
 /-- one item of a bracket expression -/
 inductive ClsItem where
@@ -45,6 +62,7 @@ inductive Re where
   | cls (neg : Bool) (items : List ClsItem)
   | bol
   | eol
+  | wordb (k : WordB)
   | cat (a b : Re)
   | alt (a b : Re)
   | star (a : Re)
@@ -55,10 +73,12 @@ inductive Re where
 deriving Repr, Inhabited
 
 /-- `icase`: the pattern was compiled with `HAWK_TRE_IGNORECASE` (hawk: `IGNORECASE != 0` selects
-`code[1]`); `notbol`: the call passes `HAWK_TRE_NOTBOL` (hawk: `str->ptr != substr->ptr`). -/
+`code[1]`); `notbol`: the call passes `HAWK_TRE_NOTBOL` (hawk: `str->ptr != substr->ptr`); `noteol`: the call
+passes `HAWK_TRE_NOTEOL` (library API only; no hawk caller sets it). -/
 structure Flags where
   icase : Bool := false
   notbol : Bool := false
+  noteol : Bool := false
 deriving Repr, DecidableEq, Inhabited
 
 /-- case folding (ASCII letters only, like `Char.toLower`) -/
@@ -93,6 +113,26 @@ def IterN (R : Nat → Nat → Prop) : Nat → Nat → Nat → Prop
   | 0, i, j => i = j
   | n + 1, i, j => ∃ k, R i k ∧ IterN R n k j
 
+/-- is there a word character just before / at position `i` (outside the subject: no) -/
+def prevW (s : List Char) (i : Nat) : Bool := match i with
+  | 0 => false
+  | k + 1 => match s[k]? with
+    | some d => isWord d
+    | none => false
+
+def nextW (s : List Char) (i : Nat) : Bool := match s[i]? with
+  | some d => isWord d
+  | none => false
+
+/-- word assertion at position `i`, transcribed from `CHECK_ASSERTIONS` (tre-match-ut.h): the matcher sees only
+the subject it is given, so at position 0 there is no previous character even under NOTBOL; `\b` holds at both
+ends of the subject unconditionally and `\B` at neither. -/
+def wordbHolds (s : List Char) (i : Nat) : WordB → Bool
+  | .bow => !prevW s i && nextW s i
+  | .eow => prevW s i && !nextW s i
+  | .wb => i == 0 || i == s.length || (prevW s i != nextW s i)
+  | .nwb => i != 0 && i != s.length && (prevW s i == nextW s i)
+
 /-- `Matches f s r i j`: `r` matches `s[i..j)` in the context of the whole subject `s`. -/
 def Matches (f : Flags) (s : List Char) : Re → Nat → Nat → Prop
   | .emp, i, j => i = j ∧ i ≤ s.length
@@ -100,7 +140,8 @@ def Matches (f : Flags) (s : List Char) : Re → Nat → Nat → Prop
   | .any, i, j => j = i + 1 ∧ i < s.length
   | .cls neg items, i, j => j = i + 1 ∧ ∃ d, s[i]? = some d ∧ clsHas f.icase neg items d = true
   | .bol, i, j => i = j ∧ i = 0 ∧ f.notbol = false
-  | .eol, i, j => i = j ∧ i = s.length
+  | .eol, i, j => i = j ∧ i = s.length ∧ f.noteol = false
+  | .wordb k, i, j => i = j ∧ i ≤ s.length ∧ wordbHolds s i k = true
   | .cat a b, i, j => ∃ k, Matches f s a i k ∧ Matches f s b k j
   | .alt a b, i, j => Matches f s a i j ∨ Matches f s b i j
   | .star a, i, j => i ≤ s.length ∧ Iter (Matches f s a) i j
@@ -149,7 +190,8 @@ def ends (f : Flags) (s : List Char) : Re → Nat → List Nat
     | some d => if clsHas f.icase neg items d then [i + 1] else []
     | none => []
   | .bol, i => if i = 0 ∧ f.notbol = false then [i] else []
-  | .eol, i => if i = s.length then [i] else []
+  | .eol, i => if i = s.length ∧ f.noteol = false then [i] else []
+  | .wordb k, i => if i ≤ s.length ∧ wordbHolds s i k = true then [i] else []
   | .cat a b, i => stepAll (ends f s b) (ends f s a i)
   | .alt a b, i => union (ends f s a i) (ends f s b i)
   | .star a, i => if i ≤ s.length then closure (ends f s a) (s.length + 1) [i] else []
@@ -201,6 +243,7 @@ def foldRe : Re → Re
   | .cls neg items => .cls neg (items.map foldItem)
   | .bol => .bol
   | .eol => .eol
+  | .wordb k => .wordb k
   | .cat a b => .cat (foldRe a) (foldRe b)
   | .alt a b => .alt (foldRe a) (foldRe b)
   | .star a => .star (foldRe a)
@@ -214,9 +257,11 @@ def itemNoRange : ClsItem → Bool
   | .range _ _ => false
   | .named _ => false
 
-/-- no bracket expression of the pattern contains a range -/
+/-- every bracket expression of the pattern lists single characters only (no range, no named class) and
+the pattern has no word assertion: the patterns for which IGNORECASE is literally "fold both sides" -/
 def noRange : Re → Bool
   | .emp | .chr _ | .any | .bol | .eol => true
+  | .wordb _ => false
   | .cls _ items => items.all itemNoRange
   | .cat a b | .alt a b => noRange a && noRange b
   | .star a | .plus a | .opt a | .rep a _ _ | .grp a => noRange a
@@ -224,8 +269,22 @@ def noRange : Re → Bool
 /-- the pattern contains no `^` -/
 def noBol : Re → Bool
   | .bol => false
-  | .emp | .chr _ | .any | .eol | .cls _ _ => true
+  | .emp | .chr _ | .any | .eol | .cls _ _ | .wordb _ => true
   | .cat a b | .alt a b => noBol a && noBol b
   | .star a | .plus a | .opt a | .rep a _ _ | .grp a => noBol a
+
+/-- the pattern contains no `$` -/
+def noEol : Re → Bool
+  | .eol => false
+  | .emp | .chr _ | .any | .bol | .cls _ _ | .wordb _ => true
+  | .cat a b | .alt a b => noEol a && noEol b
+  | .star a | .plus a | .opt a | .rep a _ _ | .grp a => noEol a
+
+/-- the pattern contains no word assertion -/
+def noWordB : Re → Bool
+  | .wordb _ => false
+  | .emp | .chr _ | .any | .bol | .eol | .cls _ _ => true
+  | .cat a b | .alt a b => noWordB a && noWordB b
+  | .star a | .plus a | .opt a | .rep a _ _ | .grp a => noWordB a
 
 end Hawk.Rex
